@@ -68,17 +68,7 @@ def judge (ts : Syntax) (deflated : Bool) (strat : Strategy) (tree : Elems) (o :
     let candidates : List (String × Bytes) :=
       (match inf with | some i => [("d", i)] | none => []) ++ [(if deflated then "plain" else "p", raw)]
     match candidates.find? fun c => Valid.validPS35 cfg c.2 with
-    | none =>
-      -- classifier of a recorded finding: the default strategy keeps the recorded (now stale) length of an
-      -- item that follows an encapsulated pixel data element (`last_de` is not cleared at its end);
-      -- recognised by: SetUndefined, the tree has a pixel sequence and an explicit item length, and the
-      -- bytes are exactly what the model of the existing code produces
-      let isKnown : Bool := decide (strat = .setUndefined) && elemsHasPix tree && elemsHasExplicit tree &&
-        (match model with
-          | .ok mb => candidates.any fun c => c.2 == mb
-          | .error _ => false)
-      if isKnown then .error s!"PROP-FAIL class=stale-item-length-after-pixel-sequence call={label} bytes={hexOf (candidates.head!).2}"
-      else .error s!"PROP-FAIL class=invalid-structure call={label} bytes={hexOf raw}"
+    | none => .error s!"PROP-FAIL class=invalid-structure call={label} bytes={hexOf raw}"
     | some (kind, bs) =>
       match Valid.parsePS35 cfg bs with
       | none => .error s!"PROP-FAIL class=invalid-structure call={label}"
